@@ -299,7 +299,11 @@ func TestVerifC18Record(t *testing.T) {
 		c18UnifiedCodec(0), c18UnifiedCodec(3),
 		c18Ciphertext13Codec(0), c18Ciphertext13Codec(3),
 		c18Plaintext13Codec(),
-		c18Unpack13Codec(0, false, true), c18Unpack13Codec(0, false, false), c18Unpack13Codec(1, true, true),
-		c18Unpack13Codec(3, false, true), c18Unpack13Codec(3, true, true),
+		// cidLength x cidRequired with ciphertext headers enabled, plus three disabled contexts
+		c18Unpack13Codec(0, false, true), c18Unpack13Codec(0, true, true),
+		c18Unpack13Codec(1, false, true), c18Unpack13Codec(1, true, true),
+		c18Unpack13Codec(4, false, true), c18Unpack13Codec(4, true, true),
+		c18Unpack13Codec(8, false, true), c18Unpack13Codec(8, true, true),
+		c18Unpack13Codec(0, false, false), c18Unpack13Codec(4, false, false), c18Unpack13Codec(4, true, false),
 	})
 }
